@@ -429,6 +429,7 @@ func (d *Datastore) TransactionSet(ctx context.Context, transactionId string, tr
 			// to finish, its confirm or cancel would be refused otherwise.
 			d.dmutex.Unlock()
 			time.Sleep(time.Millisecond * 200)
+			verifhook.Yield("set.relock", transactionId)
 			d.dmutex.Lock()
 		}
 		if transactionGuard != nil {
